@@ -369,13 +369,12 @@ func capNeed(s *Scn) int {
 			return 16 + 9*c + 16
 		}
 		return 16 + c + 16
-	case "SrvClaimToBe":
-		return 8 + 1024 + 8
-	case "SrvTokenStep1":
-		return 8 + 8 + 1024 + 65536 + 8 + 256 + 8
-	case "CliTokenStep2":
-		return 8 + 2*(8+1024) + 3*(8+256) + 8
 	}
+	// SrvClaimToBe, SrvTokenStep1, CliTokenStep2 read capped strings too, but after
+	// a failed method the real endpoint goes on with its retry loop and reads
+	// the next message from the same connection, so "bytes taken from the
+	// connection by the whole handshake" says nothing about the capped reader
+	// (which is bound directly as GetStringMax).
 	return -1
 }
 
@@ -618,7 +617,7 @@ func tokenMembers(ep, c string) []string {
 	case "pct":
 		return []string{"%41", "%00"}
 	case "pctbad":
-		return []string{"%zz", "%", "%4"}
+		return []string{"%zz", "%%", "%g1"} // stay malformed whatever follows
 	case "vtag":
 		return []string{"$CondorVersion:", "$"}
 	case "num":
